@@ -881,6 +881,29 @@ def gen_list_enum(rng, tier, add, pools):
                 add("list-len", "pe L(%s)[%s] %s" % (item, f, hx(" ".join(rng.choice(rng.choice(cl)) for _ in range(n)))))
 
 
+# canonical representations at roll-over boundaries (day, month, YEAR, leap day, century) for zones -14:00..+14:00
+def gen_canon_boundaries(rng, tier, add, pools):
+    thorough = tier == "thorough"
+    days = ["1999-12-31", "2000-01-01", "2000-12-31", "2001-01-01", "9999-12-31", "0001-01-01", "0001-12-31", "0002-01-01", "-0001-12-31",
+            "-0001-01-01", "1900-02-28", "1900-03-01", "2000-02-28", "2000-02-29", "2000-03-01", "2004-02-29", "2100-02-28", "2100-03-01",
+            "1999-11-30", "1999-12-01", "2000-04-30", "2000-05-01", "2000-06-15", "10000-01-01", "12345-12-31", "2399-12-31", "2400-02-29"]
+    zones = ["", "Z", "+00:00", "-00:00", "+00:01", "-00:01", "+11:59", "+12:00", "+12:01", "-11:59", "-12:00", "-12:01", "+13:30", "-13:30",
+             "+14:00", "-14:00", "+05:30", "-09:45"]
+    times = ["00:00:00", "00:00:01", "11:59:59", "12:00:00", "12:00:01", "23:59:59", "23:30:00.50", "00:30:00.125", "24:00:00", "13:45:00"]
+    for d in days:
+        zs = zones if thorough else zones[:4] + rng.sample(zones[4:], 9)
+        for z in zs:
+            for op in ("xsc", "can"):
+                add("canon-date", "%s date %s" % (op, hx(d + z)))
+            t = rng.choice(times)
+            for op in ("xsc", "can"):
+                add("canon-dt", "%s dateTime %s" % (op, hx(d + "T" + t + z)))
+    for t in times:
+        for z in zones:
+            for op in ("xsc", "can"):
+                add("canon-time", "%s time %s" % (op, hx(t + z)))
+
+
 def gen_combinators(rng, tier, add, pools):
     thorough = tier == "thorough"
     leaves = ["int", "boolean", "double", "unsignedByte", "decimal", "negativeInteger"]
@@ -943,6 +966,7 @@ def gen_cases(rng, tier):
     gen_b64_padding(rng, tier, add, pools)
     gen_gtypes(rng, tier, add, pools)
     gen_list_enum(rng, tier, add, pools)
+    gen_canon_boundaries(rng, tier, add, pools)
     gen_combinators(rng, tier, add, pools)
     return cases, pools
 
@@ -1005,6 +1029,10 @@ def oracle_request(req):
         return "spec_dt_order %s %s" % (a[2], a[3])
     if op in ("xsc", "can") and a[1] == "dateTime":
         return "spec_dt " + a[2]
+    if op in ("xsc", "can") and a[1] == "date":
+        return "spec_date " + a[2]
+    if op in ("xsc", "can") and a[1] == "time":
+        return "spec_time " + a[2]
     if op == "xsv" and a[1] == "decimal":
         return "spec_dec_valid decimal " + a[2]
     if op in ("dv", "pe", "pa") and type_base(a[1]) == "decimal":
@@ -1131,6 +1159,17 @@ def attribute(req, mode):
         toks = [t for t in "".join(chr(u) if u not in WS else " " for u in unhx(a[2])).split(" ") if t] if a[0] != "cmp" else []
         if any(t in ("+.", "-.") for t in toks):
             return "F33"            # a sign followed by a lone '.' is rewritten to a zero by normalizeZero
+    if base in ("date", "time") and a[0] in ("xsc", "can"):
+        u = collapse(unhx(a[2]))
+        t = "".join(chr(c) for c in u)
+        zoned = t.endswith("Z") or (len(t) > 6 and t[-6] in "+-" and t[-3] == ":")
+        if base == "date" and zoned and t.lstrip("-")[:5] in ("0001-",) :
+            return "F32"            # year 0001 / -0001 next to the non-existent year 0000
+        if base == "time" and t.startswith("24"):
+            return None
+        return None
+    if base in ("dateTime", "date") and a[0] in ("xsc", "can") and collapse(unhx(a[2]))[:1] == [0x2D] and mode.get("f39", 0) == 0:
+        return "F39"                # canonical form of a negative year
     if base == "dateTime" and a[0] in ("cmp", "xsc", "can"):
         def zoned(u):
             return u[-1:] == [0x5A] or (len(u) > 6 and u[-6] in (0x2B, 0x2D) and u[-3] == 0x3A)
@@ -1141,7 +1180,8 @@ def attribute(req, mode):
                 return "F31"        # hour 24 is kept as is (not the following day's 00:00:00)
         if a[0] == "cmp" and len(us) == 2 and zoned(us[0]) != zoned(us[1]):
             return "F30"
-        if a[0] in ("xsc", "can") and us[0][:5] == [0x30, 0x30, 0x30, 0x31, 0x2D] and zoned(us[0]):
+        y0 = us[0][1:] if us[0][:1] == [0x2D] else us[0]
+        if a[0] in ("xsc", "can") and y0[:5] == [0x30, 0x30, 0x30, 0x31, 0x2D] and zoned(us[0]):
             return "F32"        # a zoned value of year 0001: normalisation may step into the non-existent year 0000
     if base == "dateTime" and a[0] != "cmp":
         u = collapse(unhx(a[2]))
@@ -1179,6 +1219,12 @@ def followups(req, impl, spec=None):
         if norm != "-":
             out.append(("impl", "xsv %s %s" % (a[1], norm), "1" if impl.startswith("valid") else "0",
                         "XSValue::validate on the whitespace-normalised value disagrees with in-parse validation", req))
+    if a[0] in ("xsc", "can") and a[1] in ("date", "time") and impl.startswith("ok "):
+        c = impl.split()[1]
+        out.append(("spec", "spec_%s_canon %s %s" % (a[1], a[2], c), "1",
+                    "canonical representation of the %s is not the canonical literal of the same value" % a[1], req))
+        out.append(("impl", "xsc %s %s" % (a[1], c), "ok " + c, "canonical representation is not idempotent", req))
+        out.append(("impl", "can %s %s" % (a[1], c), "ok " + c, "canonical representation (validator) is not idempotent", req))
     if a[0] in ("xsc", "can") and a[1] == "dateTime" and impl.startswith("ok "):
         c = impl.split()[1]
         out.append(("spec", "spec_dt_canon %s %s" % (a[2], c), "1",
@@ -1202,6 +1248,11 @@ def followups_bin(req, impl):
                     "canonical representation is not a canonical literal of the same value", req))
         out.append(("impl", "xsc %s %s" % (b, c), "ok " + c, "canonical representation is not idempotent", req))
     return out
+
+
+def f39_overflow(req):
+    a = req.split()
+    return len(a) == 3 and a[0] in ("xsc", "can") and a[1] == "date" and collapse(unhx(a[2]))[:1] == [0x2D]
 
 
 def nontrivial(req, impl):
